@@ -408,6 +408,34 @@ Definition P11 (c : config) (ev : evaluator) (r : request) (w : world) (o : obs)
   | _ => true
   end.
 
+(** "one line per distinct set of violated controls": the number of pod lines
+    equals the number of distinct control sets among the violating checked pods.
+    A control is identified by its reason up to the singular/plural wording of
+    the AppArmor control (the only built-in reason that varies with the pod).
+    This clause is NOT implied by P11: the implementation groups by reason
+    text (finding F3, DESIGN.md section 1); it is evaluated separately. *)
+Definition norm_reason (r : string) : string :=
+  if String.eqb r "forbidden AppArmor profiles" then "forbidden AppArmor profile" else r.
+Definition s_control_set (ev : evaluator) (x : lv) (p : pod) : string :=
+  join ", " (map norm_reason (ag_reasons (aggregate_results (ev x p)))).
+Definition is_pod_line (w : string) : bool :=
+  negb (has_prefix "new PodSecurity enforce level only checked" w) && negb (has_prefix "existing pods in namespace" w)
+  && negb (has_prefix "failed to list pods" w).
+Definition P11_control_sets (c : config) (ev : evaluator) (r : request) (w : world) (o : obs) : bool :=
+  if negb (is_namespaces r) then true else
+  match r_object r, w_pods w with
+  | ONamespace name ls, Some pods =>
+      imp (existsb is_list (snd o))
+          (let x := enforce (spec_policy ls (cf_defaults c)) in
+           let pr := s_prioritized c pods in
+           let capped := firstn (cf_max_pods c) pr in
+           let checked := match w_expire_after w with Some k => firstn (S k) capped | None => capped end in
+           let bad := filter (violates ev x) checked in
+           Nat.eqb (List.length (filter is_pod_line (rs_warnings (fst o))))
+                   (List.length (s_distinct (map (s_control_set ev x) bad))))
+  | _, _ => true
+  end.
+
 (** bounded and honest: at most cap evaluations, in prioritised order, and the
     warnings are exactly the report of the pods actually checked *)
 Definition P12 (c : config) (ev : evaluator) (r : request) (w : world) (o : obs) : bool :=
